@@ -61,19 +61,51 @@ def _handler_job(job):
         w.close()
 
 
+def _after_opposite(tree, option, consts):
+    """The same request as the SECOND template request of a fresh interpreter whose first one ran under the opposite
+    setting of the gate (two sites in one process, or one site re-configured): the answer must be the one of `option`."""
+    import pickle
+    import subprocess
+    import sys
+    import tempfile
+    with tempfile.TemporaryDirectory(prefix="c18-", dir="/dev/shm" if os.path.isdir("/dev/shm") else None) as d:
+        with open(os.path.join(d, "job"), "wb") as fp:
+            pickle.dump((tree, option, consts), fp)
+        p = subprocess.run([sys.executable, "-c", "from harness import c18; c18._second_main(%r)" % d],
+                           stdout=subprocess.PIPE, stderr=subprocess.STDOUT, timeout=300)
+        if p.returncode != 0 or not os.path.exists(os.path.join(d, "out")):
+            raise core.MachineryError("C18: the fresh process serving a template after the opposite gate setting failed: %s"
+                                      % p.stdout.decode("utf-8", "replace")[-600:])
+        with open(os.path.join(d, "out"), "rb") as fp:
+            return pickle.load(fp)
+
+
+def _second_main(d):
+    import pickle
+    with open(os.path.join(d, "job"), "rb") as fp:
+        tree, option, consts = pickle.load(fp)
+    _handler_job((tree, "no" if option == "yes" else "yes", consts))
+    out = _handler_job((tree, option, consts))
+    with open(os.path.join(d, "out"), "wb") as fp:
+        pickle.dump(out, fp)
+
+
 def handler_runs(cases, consts):
-    """extra runs of a part (called inside the part's worker process): the py cases through the real server"""
+    """extra runs of a part (called inside the part's worker process): the py cases through the real server, each also
+    as the second template request of a fresh process whose first one ran with the gate the other way"""
     from harness import c17_tal
     runs = []
-    for c in cases:
-        if c["fam"] != "py":
-            continue
-        o = _handler_job((c["tree"], "yes" if c["py"] else "no", consts))
+    py = [c for c in cases if c["fam"] == "py"]
+    # (a fresh interpreter costs ~0.4 s: the first two cases of either gate setting per part)
+    todo = [(c, False) for c in py] + [(c, True) for g in (True, False) for c in [x for x in py if bool(x["py"]) == g][:2]]
+    for c, second in todo:
+        option = "yes" if c["py"] else "no"
+        o = _after_opposite(c["tree"], option, consts) if second else _handler_job((c["tree"], option, consts))
         init = {"tree": c["tree"], "ctx": {"id": "none", "ents": []}, "py": bool(c["py"]), "fam": "py", "var": 0, "kind": "handler",
                 "prog": [], "symt": [], "macros": [], "before": c17_tal.EMPTY_SNAP, "compiled": True}
         final = {"ev": "end", "raised": "", "doc": o["doc"], "cdoc": "", "doc2": "", "toks": [], "after": c17_tal.EMPTY_SNAP,
                  "canary": o["canary"], "nsteps": 0, "log": [str(x)[:200] for x in o["log"]], "escaped": o["escaped"] or ""}
-        runs.append({"text": "handler:" + o["text"], "init": init, "events": [], "final": final})
+        runs.append({"text": ("handler(second request of a process, gate reversed):" if second else "handler:") + o["text"], "init": init, "events": [], "final": final})
     return runs
 
 
